@@ -15832,7 +15832,9 @@ R_<TG_, TA_>::initialEnter() noexcept {
 			pendingTransitions.clear();
 		}
 		else {
+			// nothing the guards would have to judge, but the requests may have left marks the comparison does not cover
 			HFSM2_IF_TRANSITION_HISTORY(_core.transitionTargets = approvedTargets);
+			_core.registry.restore(backup);
 			_core.requests.clear();
 		}
 	}
@@ -15943,7 +15945,9 @@ R_<TG_, TA_>::processTransitions(TransitionSets& currentTransitions) noexcept {
 			pendingTransitions.clear();
 		}
 		else {
+			// nothing the guards would have to judge, but the requests may have left marks the comparison does not cover
 			HFSM2_IF_TRANSITION_HISTORY(_core.transitionTargets = approvedTargets);
+			_core.registry.restore(backup);
 			_core.requests.clear();
 		}
 	}
